@@ -69,6 +69,7 @@ def _history_alphabet():
     ms.append(cm.on_carrier([('REQUIRES', 'x', 'y')]))
     ms.append(cm.on_carrier([('AND', 'x', ('OR', 'y', 'z')), ('EXCLUDES', 'x', 'z')]))
     ms.append(cm.on_carrier([('IMPLIES', 'x', ('EQUIVALENCE', 'y', 'z')), ('NOT', ('XOR', 'x', 'z'), None)]))
+    ms.append(cm.on_carrier([('OR', ('OR', ('AND', 'x', 'y'), 'z'), 'x'), ('AND', ('OR', 'x', ('OR', 'y', ('AND', 'z', 'x'))), 'y')]))
     ms.append(_flagged(sh.M(sh.F('Fa', [sh.R(1, 2, [sh.F('Bb'), sh.F('Dc')]), sh.R(1, 1, [sh.F('Ad')])])), {'Fa', 'Dc'}))
     return ms
 
@@ -83,6 +84,11 @@ def cases(tier, seed):
             for k in (1, 2):
                 for subset in itertools.combinations(nm, k):
                     yield ('M', _flagged(m, set(subset)))
+    from . import families
+    for m in families.models():
+        yield ('M', m)
+    for t in families.deep_trees():
+        yield ('M', cm.on_carrier([t]))
     ksets = list(cm.k1()) + list(cm.k2_subset())
     for n in range(2, n_ctc + 1):
         for m in sp.structures(n):
@@ -108,17 +114,19 @@ def cases(tier, seed):
             yield ('MF', fmod, (n,))
         for p in pairs:
             yield ('MF', fmod, tuple(p))
+    for spec in families.BIG_SPECS:
+        yield ('MB', spec)
     # analyse, edit the same model object in place, analyse again with the same FMMetrics object
     for m in sp.structures_upto(3 if tier == 'quick' else 4):
         yield ('ME', m)
     # histories on one object
     alpha = _history_alphabet()
     if tier == 'quick':
-        alpha = alpha[:4] + alpha[-4:] + alpha[10:14]
+        alpha = alpha[:4] + alpha[-5:] + alpha[10:14]
     maxlen = 2 if tier == 'quick' else 3
     for length in range(2, maxlen + 1):
         if length == 3:
-            sub = alpha[:4] + alpha[-4:]
+            sub = alpha[:4] + alpha[-5:]
             seqs = itertools.product(sub, repeat=3)
         else:
             seqs = itertools.product(alpha, repeat=2)
@@ -143,6 +151,8 @@ def plan(tier):
 def describe(case):
     if case[0] == 'MH':
         return 'MH:' + ' -> '.join(sh.model_str(m) for m in case[1])
+    if case[0] == 'MB':
+        return 'MB:%s' % (case[1],)
     if case[0] == 'ME':
         return 'ME:' + sh.model_str(case[1])
     if case[0] == 'MF':
@@ -399,6 +409,19 @@ def check(case):
             if fr is None or _plain([r]) != _plain([fr]):
                 out.append(Fail('filter-changes-metric', r['name']))
         check_report(res, model, fm, out, want_names)
+        return out
+    if kind == 'MB':
+        from . import families
+        model = families.big_build(case[1])
+        fm, fails = cm.built(model)
+        if fails:
+            return fails
+        try:
+            res = FMMetrics().execute(fm).get_result()
+            engine.tick()
+        except Exception as exc:  # noqa: BLE001
+            return [Fail('raises:%s' % type(exc).__name__, str(exc)[:200])]
+        check_report(res, model, fm, out, list(METRICS.values()))
         return out
     if kind == 'ME':
         from .c03 import inplace_edits
